@@ -104,8 +104,8 @@ theorem removeNet_spec (s : St) (hs : Inv s) (addr : Net) (hw : addr.WF) :
       simp only [Bool.and_eq_true, beq_iff_eq, decide_eq_true_eq] at hin
       exact ⟨hin.1.1, hin.1.2, hin.2⟩
     -- cidr_exclude on the containing block
-    have ht : PWF (width c.ver) (toPfx c) := ⟨hcg.1.2.1, hcg.1.2.2⟩
-    have he : PWF (width c.ver) (toPfx addr) := ⟨by rw [← hcv]; exact hw.2.1, by rw [← hcv]; exact hw.2.2⟩
+    have ht : NV.C09L.PWF (width c.ver) (toPfx c) := ⟨hcg.1.2.1, hcg.1.2.2⟩
+    have he : NV.C09L.PWF (width c.ver) (toPfx addr) := ⟨by rw [← hcv]; exact hw.2.1, by rw [← hcv]; exact hw.2.2⟩
     obtain ⟨xd, xc, xw⟩ := C09.exclude_spec (width c.ver) (toPfx c) (toPfx addr) ht he
     generalize hrem0 : cidrExclude (width c.ver) (toPfx c) (toPfx addr) = rem0 at xd xc xw
     -- membership facts in terms of Net-level first/last
@@ -118,7 +118,7 @@ theorem removeNet_spec (s : St) (hs : Inv s) (addr : Net) (hw : addr.WF) :
       obtain ⟨b, hb, rfl⟩ := List.mem_map.1 hn
       obtain ⟨hp, _, hal⟩ := xw b hb
       exact ⟨good_of_aligned _ ⟨hcg.1.1, hp.val_lt, hp.plen_le⟩ hal, rfl⟩
-    have hrblk : ∀ b ∈ rem0, blk (ofPfx c.ver b) = NV.blk (width c.ver) b := by
+    have hrblk : ∀ b ∈ rem0, blk (ofPfx c.ver b) = NV.C09L.blk (width c.ver) b := by
       intro b hb
       rw [blk_good _ (hrg _ (List.mem_map.2 ⟨b, hb, rfl⟩)).1]; rfl
     have g0 := good_dDel (addNet s addr) hs1.good c
@@ -129,19 +129,19 @@ theorem removeNet_spec (s : St) (hs : Inv s) (addr : Net) (hw : addr.WF) :
     have hnd := nodup_foldl_dInsert (rem0.map (ofPfx c.ver)) (fun n hn => (hrg n hn).1) _ g0
       (nodup_dDel _ hs1.nodup c)
     -- a replacement block lies strictly inside c
-    have hrsub : ∀ b ∈ rem0, (NV.blk (width c.ver) b).sub (blk c) ∧ (NV.blk (width c.ver) b).k < (blk c).k := by
+    have hrsub : ∀ b ∈ rem0, (NV.C09L.blk (width c.ver) b).sub (blk c) ∧ (NV.C09L.blk (width c.ver) b).k < (blk c).k := by
       intro b hb
-      have hbm : NV.blk (width c.ver) b ∈ blks (width c.ver) rem0 := List.mem_map.2 ⟨b, hb, rfl⟩
-      have hsub : (NV.blk (width c.ver) b).sub (blk c) := by
+      have hbm : NV.C09L.blk (width c.ver) b ∈ NV.C09L.blks (width c.ver) rem0 := List.mem_map.2 ⟨b, hb, rfl⟩
+      have hsub : (NV.C09L.blk (width c.ver) b).sub (blk c) := by
         intro a ha
         have := (xd a).1 ⟨_, hbm, ha⟩
         exact (blk_mem c hcg.1 a).2 ((tmem a).1 this.1)
       refine ⟨hsub, ?_⟩
-      rcases Nat.lt_or_ge (NV.blk (width c.ver) b).k (blk c).k with h | h
+      rcases Nat.lt_or_ge (NV.C09L.blk (width c.ver) b).k (blk c).k with h | h
       · exact h
       · exfalso
         have hle := sub_k_le _ _ hsub
-        have hal : (NV.blk (width c.ver) b).aligned := xc.al _ hbm
+        have hal : (NV.C09L.blk (width c.ver) b).aligned := xc.al _ hbm
         have e := eq_of_share _ _ hal (blk_aligned c hcg.1) (by omega) _ (mem_base _) (hsub _ (mem_base _))
         -- then addr.first would be in the replacement block, but it is excluded
         have h1 : (blk c).mem addr.first := (blk_mem c hcg.1 _).2 ⟨hcf, by have := first_le_last addr hw; omega⟩
@@ -180,13 +180,13 @@ theorem removeNet_spec (s : St) (hs : Inv s) (addr : Net) (hw : addr.WF) :
           obtain ⟨m, hm, hvm, rfl⟩ := mem_fam.1 hy
           -- an old block o and a replacement block r cannot be siblings
           have mixed : ∀ (o : Net) (b : Pfx), o ∈ addNet s addr → o ≠ c → o.ver = c.ver → b ∈ rem0 →
-              ((blk o).sib (NV.blk (width c.ver) b) ∨ (NV.blk (width c.ver) b).sib (blk o)) → False := by
+              ((blk o).sib (NV.C09L.blk (width c.ver) b) ∨ (NV.C09L.blk (width c.ver) b).sib (blk o)) → False := by
             intro o b ho hoc hov hb hsb
-            have hral : (NV.blk (width c.ver) b).aligned := xc.al _ (List.mem_map.2 ⟨b, hb, rfl⟩)
+            have hral : (NV.C09L.blk (width c.ver) b).aligned := xc.al _ (List.mem_map.2 ⟨b, hb, rfl⟩)
             have hoal := blk_aligned o (hs1.good o ho).1
-            have hpm := sib_base_mem_parent (blk o) (NV.blk (width c.ver) b) hoal hral hsb
+            have hpm := sib_base_mem_parent (blk o) (NV.C09L.blk (width c.ver) b) hoal hral hsb
             obtain ⟨rs, rk⟩ := hrsub b hb
-            have hps : (NV.blk (width c.ver) b).parent.sub (blk c) :=
+            have hps : (NV.C09L.blk (width c.ver) b).parent.sub (blk c) :=
               sub_of_share _ _ (parent_aligned _) (blk_aligned c hcg.1) (by simp [parent]; omega) _
                 (sub_parent _ hral _ (mem_base _)) (rs _ (mem_base _))
             exact (hs1.cs c.ver).dj _ (mem_fam.2 ⟨o, ho, hov, rfl⟩) _ (mem_fam.2 ⟨c, hc, rfl, rfl⟩)
@@ -217,7 +217,7 @@ theorem removeNet_spec (s : St) (hs : Inv s) (addr : Net) (hw : addr.WF) :
         constructor
         · rintro ⟨n, hn, hvn, hx⟩
           obtain ⟨b, hb, rfl⟩ := List.mem_map.1 hn
-          have hm : (NV.blk (width c.ver) b).mem a := by
+          have hm : (NV.C09L.blk (width c.ver) b).mem a := by
             rw [← hrblk b hb]; exact (blk_mem _ (hrg _ hn).1.1 a).2 hx
           have := (xd a).1 ⟨_, List.mem_map.2 ⟨b, hb, rfl⟩, hm⟩
           exact ⟨hvn, (tmem a).1 this.1, fun h => this.2 ((emem a).2 h)⟩
